@@ -51,7 +51,7 @@ pub struct GCSFilterReader;
 impl GCSFilterReader {
     pub fn new(_h: SipHasher24Builder, _m: u64, _p: u8) -> Self { GCSFilterReader }
     /// abstraction of Golomb-coded-set matching: bit (id-1) of the filter byte says "script id is in the filter"
-    pub fn match_any<'a, I: Iterator<Item = &'a [u8]>>(&self, input: &mut Cursor, query: &mut I) -> Result<bool, ()> { let mut r = false; for h in query { let id = h[0]; if id >= 1 && id <= 8 && (input.0 >> (id - 1)) & 1 == 1 { r = true; } } Ok(r) }
+    pub fn match_any<'a, I: Iterator<Item = &'a [u8]>>(&self, input: &mut Cursor, query: &mut I) -> Result<bool, ()> { if input.0 & 0x80 != 0 { return Err(()); } /* not a well-formed Golomb-coded set: UnexpectedEof */ let mut r = false; for h in query { let id = h[0]; if id >= 1 && id <= 8 && (input.0 >> (id - 1)) & 1 == 1 { r = true; } } Ok(r) }
 }
 pub struct Cursor(pub u8); impl Cursor { pub fn new(b: u8) -> Cursor { Cursor(b) } }
 #[derive(Clone, Copy, Default)] pub struct FilterBytes(pub u8);
@@ -84,7 +84,10 @@ mod harness {
         let start: u64 = kani::any(); kani::assume(start < (1u64 << 62));
         let fb: [u8; 3] = kani::any(); let hb: [u8; 3] = [11, 12, 13];   // block hashes of a batch are pairwise distinct
         let mut filters = Vec::new(); let mut hashes = Vec::new(); let mut i = 0;
-        while i < 3 { if i < nf { filters.push(FilterBytes(fb[i] & 7)); hashes.push(Byte32(hb[i])); } i += 1; }
+        // only the first `limit` filters were verified against the agreed filter hashes (authentic, hence well-formed); a filter beyond them is whatever the peer sent -
+        // possibly not a well-formed Golomb-coded set (bit 7 in the model), which the reader answers with an error
+        let bad: [bool; 3] = kani::any();
+        while i < 3 { if i < nf { filters.push(FilterBytes((fb[i] & 7) | if i >= limit && bad[i] { 0x80 } else { 0 })); hashes.push(Byte32(hb[i])); } i += 1; }
         let out = fp.check_filters_data(packed::BlockFilters { start, filters, hashes }, limit);
         // reference
         let mut k = 0usize; let mut j = 0usize;
